@@ -422,3 +422,38 @@ Proof.
   intros p q Hp Hq. unfold join. destruct p as [|c p']; [contradiction|].
   rewrite Hq. destruct (last (c :: p') 0 =? SLASH); reflexivity.
 Qed.
+
+(* getPathName / getParentDirectory invent no bytes: the name is a suffix of the path string and the
+   parent a prefix of it, for every string *)
+Lemma name_is_suffix : forall s, exists pre, s = pre ++ get_path_name s.
+Proof.
+  intros s. unfold get_path_name, erase_front.
+  eexists. symmetry. apply firstn_skipn.
+Qed.
+
+Lemma erase_from_prefix : forall s pos d, erase_from s pos = Some d -> exists rest, s = d ++ rest.
+Proof.
+  intros s pos d H. unfold erase_from in H.
+  destruct ((0 <=? pos) && (pos <=? Zlen s)); [|discriminate].
+  inversion H; subst. eexists. symmetry. apply firstn_skipn.
+Qed.
+
+Lemma parent_is_prefix : forall s d, get_parent s = Some d -> exists rest, s = d ++ rest.
+Proof.
+  intros s d H. unfold get_parent in H.
+  set (sep := find_last_of s None) in *.
+  set (strip := match sep, size_minus s 1 with Some i, Some e => i =? e | _, _ => false end) in *.
+  assert (Hpath : forall path, (if strip then match sep with Some i => erase_from s i | None => Some s end else Some s) = Some path ->
+                               exists r1, s = path ++ r1).
+  { intros path Hp. destruct strip.
+    - destruct sep as [i|].
+      + eapply erase_from_prefix; eauto.
+      + inversion Hp; subst. exists []. rewrite app_nil_r. reflexivity.
+    - inversion Hp; subst. exists []. rewrite app_nil_r. reflexivity. }
+  destruct (if strip then match sep with Some i => erase_from s i | None => Some s end else Some s) as [path|] eqn:P; [|discriminate].
+  destruct (Hpath path eq_refl) as [r1 Hr1].
+  destruct (if strip then find_last_of path None else sep) as [j|].
+  - destruct (erase_from_prefix _ _ _ H) as [r2 Hr2].
+    exists (r2 ++ r1). rewrite app_assoc, <- Hr2. exact Hr1.
+  - inversion H; subst d. exists s. reflexivity.
+Qed.
